@@ -858,3 +858,7 @@ package genql
 //@ func ExistExpr
 //@   at-call Prepare assert scoped-to-the-current-row[C07]: arg0 == current && arg1 == expr.Subquery.Select && arg2 == query.options && has(current, "<-") && current["<-"] == any(query.data)
 //@   ensures true-iff-the-subquery-returns-a-row[C07]: err == nil ==> called(exec) && typeis(callresult(exec, 0), []any) && result == (len(callresult(exec, 0).([]any)) > 0)
+
+//@ func extractColumnsFromExpr
+//@   ensures a-column-belongs-to-the-alias-that-is-its-first-segment[C04]: err == nil ==> result0 == (ident == result1)
+//@   ensures only-column-names[C04]: !typeis(expr, *sqlparser.ColName) ==> err != nil
